@@ -34,6 +34,7 @@ import (
 	"github.com/tikv/client-go/v2/internal/client"
 	"github.com/tikv/client-go/v2/internal/locate"
 	"github.com/tikv/client-go/v2/internal/logutil"
+	"github.com/tikv/client-go/v2/internal/simhook"
 	"github.com/tikv/client-go/v2/metrics"
 	"github.com/tikv/client-go/v2/oracle"
 	"github.com/tikv/client-go/v2/tikvrpc"
@@ -814,6 +815,7 @@ func (p *asyncResolveTaskPool) tryAsyncResolve(
 	}
 
 	p.gp.Go(func() {
+		simhook.Yield("go.txnlock.asyncResolve")
 		runningTasksMetric.Inc()
 		defer func() {
 			runningTasksMetric.Dec()
